@@ -3,6 +3,7 @@ SPECIFICATION Spec
 CONSTANTS
   GRIDS <- DefectGrids
   SGRIDS <- McSolveGrids
+  AGRIDS <- TinyGrids
   KMAX = 2
   DEN = 2
   OCCVALS = {0, 1, 2}
